@@ -6,12 +6,12 @@ Open Scope Z_scope.
 Definition tconfig := config tpool.
 
 Inductive case :=
-(* the concrete X.509 against crypto/x509: leaf.Verify{Roots, CurrentTime t, DNSName n} == nil was go_ok *)
-| CX509 (roots : tpool) (l : tcert) (n : name) (t : Z) (go_ok : bool)
+(* the concrete X.509 against crypto/x509: chain[0].Verify{Roots, CurrentTime t, DNSName n, Intermediates chain[1:]} == nil was go_ok *)
+| CX509 (roots : tpool) (chain : list tcert) (n : name) (t : Z) (go_ok : bool)
 (* one full handshake: configuration, ECH public name, whether ECH was accepted (ConnectionState.ECHAccepted),
-   c.serverName as reported by ConnectionState.ServerName, the leaf the server presented, and the outcome
+   c.serverName as reported by ConnectionState.ServerName, the chain the server presented (leaf first), and the outcome
    0 = nil error, 1 = CertificateVerificationError, 2 = another error, 3 = ECHRejectionError *)
-| CFresh (cfg : tconfig) (pub : name) (accepted : bool) (obs_server_name : name) (l : tcert) (outcome : N)
+| CFresh (cfg : tconfig) (pub : name) (accepted : bool) (obs_server_name : name) (chain : list tcert) (outcome : N)
 (* per configuration: the name / time the verification evidently used, inferred by the runner from which leaf
    variants passed. name: None = could not be inferred, Some None = no name check, Some (Some n) = n.
    time: 0 = Config.Time, 1 = the leaf's NotAfter, 2 = no time check, 3 = could not be inferred *)
@@ -39,10 +39,10 @@ Definition model_time_class (cfg : tconfig) (c : conn) : N :=
 
 Definition check (c : case) : bool :=
   match c with
-  | CX509 roots l n t go_ok => Bool.eqb (toy_x509_verify roots t n [l]) go_ok
-  | CFresh cfg pub accepted osn l outcome =>
+  | CX509 roots chain n t go_ok => Bool.eqb (toy_x509_verify roots t n chain) go_ok
+  | CFresh cfg pub accepted osn chain outcome =>
       let cn := t_conn cfg pub accepted in
-      bytes_eqb (c_server_name cn) osn && (result_code (t_result cfg cn [l]) =? outcome)%N
+      bytes_eqb (c_server_name cn) osn && (result_code (t_result cfg cn chain) =? outcome)%N
   | CInfer cfg pub accepted l iname itime =>
       let cn := t_conn cfg pub accepted in
       match iname with
